@@ -68,6 +68,7 @@ impl C12 {
             // ------------------------------------------------ the prober's timers
             Op::Timer(Timer::ProbeRandomMember(tok)) if conn_pre == Conn::Active && epoch_pre == Some(*tok) => {
                 // verdict on the round that just ended
+                let judged = matches!(&self.round, Some(r) if !r.aborted && r.token == *tok);
                 if let Some(r) = self.round.take() {
                     let evidence = r.direct_ack || !r.answered.is_empty();
                     let target_pre = rec.pre.rec_for_addr(r.target.addr).filter(|m| *m.id() == r.target);
@@ -112,6 +113,29 @@ impl C12 {
                     } else {
                         acc.tally("rounds_aborted", 1);
                     }
+                }
+                // a round that was aborted (Idle, Defunct, identity change) or that never existed in this epoch
+                // cannot conclude anything: the probe timer that follows must not suspect anybody
+                if !judged {
+                    let s2d: Vec<_> = rec.scheds().filter(|(t, _)| matches!(t, Timer::ChangeSuspectToDown { .. })).collect();
+                    ensure!(
+                        s2d.is_empty(),
+                        "C12/suspicion-without-a-round",
+                        "first probe timer after the round was aborted / of a new epoch scheduled {:?}: there is no completed round to judge",
+                        s2d
+                    );
+                    for m in &rec.post.state {
+                        if m.state() == State::Suspect {
+                            let was = rec.pre.rec_for_addr(m.id().addr);
+                            ensure!(
+                                !was.is_some_and(|o| o.id() == m.id() && o.state() == State::Alive),
+                                "C12/suspicion-without-a-round",
+                                "first probe timer after the round was aborted / of a new epoch turned {:?} Suspect",
+                                m.id()
+                            );
+                        }
+                    }
+                    acc.tally("probe_timers_with_no_round_to_judge", 1);
                 }
                 // the new round
                 let pings: Vec<_> = parsed_sends.iter().filter_map(|(to, m)| if let Message::Ping(n) = m { Some((*to, *n)) } else { None }).collect();
